@@ -78,21 +78,25 @@ def typeorder(t1, t2):
                 order = order.LESS
             return order
 
-        if (order := typeorder(o1, o2)) is not Order.SAME:
+        order = typeorder(o1, o2)
+        if order is Order.NONE:
             return order
 
         args1 = get_args(t1)
         args2 = get_args(t2)
 
-        if args1 and not args2:
-            return Order.LESS
-        if args2 and not args1:
-            return Order.MORE
+        if order is Order.SAME:
+            if args1 and not args2:
+                return Order.LESS
+            if args2 and not args1:
+                return Order.MORE
         if len(args1) != len(args2):
             return Order.NONE
 
+        # Different origins (list[...] against Sequence[...]) compare by
+        # origin and by argument, like subclasscheck does
         ords = [typeorder(a1, a2) for a1, a2 in zip(args1, args2)]
-        return Order.merge(ords)
+        return Order.merge([order, *ords])
 
     sx = issubclass(t1, t2)
     sy = issubclass(t2, t1)
